@@ -3,6 +3,8 @@
 from __future__ import annotations
 
 from .. import gen
+
+gen.WIDE_RATE = 0   # wide (~100 operation) instances: too costly here / not needed
 from ..drive import Run
 from ..ref import optimum
 
@@ -53,7 +55,8 @@ def gen_cases(ctx):
     # dense flexible instances (most operations have alternative machines): many histories reach
     # the same job progress with different clocks
     for i in range(ctx.scale(450, 24000)):
-        J, P, M = rng.choice([(2, 3, 2), (2, 4, 2), (3, 2, 2), (2, 3, 3), (3, 3, 3) if hi > 8 else (2, 4, 2)])
+        J, P, M = rng.choice([(2, 3, 2), (2, 4, 2), (3, 2, 2), (2, 3, 3), (3, 2, 4), (3, 2, 4),
+                               (3, 3, 3) if hi > 8 else (2, 4, 2), (3, 3, 5) if hi > 8 else (3, 2, 4)])
         inst = {"cls": "flexible",
                 "durations": [[rng.randint(1, 6) for _ in range(P)] for _ in range(J)],
                 "machines": [[sorted(rng.sample(range(M), rng.randint(1, M))) for _ in range(P)]
